@@ -122,7 +122,7 @@ def run_shard(spec):
     acc = ShardAcc(PROPERTY)
     tier = spec.get("tier", "quick")
     for case in progbase.iter_cases(spec):
-        run_case(case, acc, tier)
+        progbase.run_with_faults(PROPERTY, run_case, case, acc, tier)
     return acc.result()
 
 
